@@ -152,4 +152,25 @@ PROPS["C20"] = dict(level="proof", allowed_axioms=FLOCQ_AXIOMS, xtpl=True,
     level_text="Theorems over the extractor model: an entry is produced exactly for keyword calls (by name, receiver.field or parenthesised callee) with enough arguments and a non-empty string-literal msgid, its text is the decoded literal - the value the evaluator passes at run time - referenced at the literal's position; too few arguments / non-literal msgids add nothing and the header entry is never overwritten; tied to the code by running the xtpl binary built from the working tree on generated template sets and diffing the parsed catalogue with the model and with the expectation known by construction.",
     level_note="The POT writer and the merge of repeated keys (map iteration order) are outside the model.")
 
+PROPS["C19"] = dict(level="proof", allowed_axioms=FLOCQ_AXIOMS,
+    rule="directory trees of 1-9 files in 0-3 levels (matching and non-matching names, unparsable files, fragments whose names collide with file paths), three matcher kinds (suffix, regexp, predicate), with and without a sub-directory, 35% with an Open or Read fault injected at a random file, on an instrumented fs.FS recording opens and closes; non-trivial = at least one file matches; distinct = distinct case lines",
+    streams=[dict(name="fs", family="fs", quick=3000, thorough=100000, nontrivial=r"EV .")],
+    trusted_base=TB_RENDER + ["io/fs (fs.Sub, fs.WalkDir: lexical order) and testing/fstest.MapFS", "the matcher is an oracle (a flag per file)"],
+    modelled=["html/manager.go (Parse, ParseWithSuffix, ParseWithRegexp, Add, addDefinedTpl, GetTemplate)"] + MOD_RENDER,
+    assumptions=["the sub-directory exists"],
+    level_text="Theorems over the walk model: every opened file is closed on every path, files that do not match are never opened, on success every matching file is registered under its relative slash path, earlier registrations are never lost (one namespace), a registered name is rejected with the duplicate error, a fault on a matching file makes Parse fail, the walk is a sorted permutation of the files and the sub-directory selects exactly the files below it; tied to the code by diffing registered names, error class and the open/close trace on generated trees with injected faults.",
+    level_note="An exact characterisation of the fragment names added by a file is left to the correspondence run.")
+PROPS["C08"] = dict(level="proof", allowed_axioms=FLOCQ_AXIOMS,
+    rule="fuzz stream: random byte strings (<= 256 bytes, 30% arbitrary bytes incl. invalid UTF-8) given to tplManager.Add + Execute, HtmlScanner, CodeScanner, exp.ParseCode + Evaluate; 90 hostile expressions and generated expressions against hostile data (nil, typed nil pointers, NaN, uncomparable structs, non-string-keyed maps, functions of every signature incl. panicking / failing / variadic / no-result, a Stringer that panics); generated and mutated template sets (incl. 200-1000 nested elements, self-including fragments, failing writers) executed with hostile data; every call under recover(), process death detected through the exit status; plus the PANIC verdicts of every other stream (scan, code, parse, eval, tmpl, plain, fs, reload); non-trivial = every case; distinct = distinct case lines",
+    streams=[dict(name="fuzz", family="fuzz", quick=4000, thorough=300000, nontrivial=r"."),
+             dict(name="scan", family="scan", quick=1500, thorough=50000, nontrivial=r"."),
+             dict(name="parse", family="parse", quick=1500, thorough=50000, nontrivial=r"."),
+             dict(name="eval", family="eval", quick=1500, thorough=50000, nontrivial=r"."),
+             dict(name="tmpl", family="tmpl", quick=800, thorough=30000, nontrivial=r".")],
+    trusted_base=TB_RENDER + ["recover() in the harness; a fatal runtime error (stack exhaustion) is seen as a dead child process"],
+    modelled=MOD_RENDER, assumptions=["inputs up to a few KB: nesting deep enough to exhaust the 1 GB goroutine stack is out of scope", "no channels in data"],
+    level_text="PARTIAL. Theorems: every partial operation of the Go code (integer division, shifts, indexing, slicing, nil dereference, calls into panicking / mis-typed user functions, non-boolean conditions, end of input inside a tag, stray close tags) is a guarded total operation of the model whose failure is an error value, and the models are total functions; that the implementation itself never panics is established by the correspondence streams (a PANIC outcome never matches the model) and by fuzzing every entry point with random bytes and hostile data.",
+    level_note="No theorem speaks about the Go runtime: implementation-level panic freedom is exploration (differential + fuzz), incl. invalid UTF-8 which is outside the model's input type.",
+    technique="Coq theorems on the model's guards + differential correspondence + in-process fuzzing under recover")
+
 NOT_YET = {}
